@@ -461,7 +461,7 @@ func main() {
 			return g.runs[i].Idx < g.runs[j].Idx
 		})
 		rep := g.runs[0]
-		rf, rerr := minimise(ctx, rep, g.v, plan.Race)
+		rf, rerr := minimise(ctx, rep, g.v, plan.Race, unlisted <= 2)
 		name := fmt.Sprintf("%s-%s-%d-%d.json", *prop, sanitize(g.v.Oracle+"-"+g.v.Signature), *seed, rep.Idx)
 		path := filepath.Join(*verif, "replays", name)
 		b, _ := json.MarshalIndent(rf, "", " ")
@@ -576,7 +576,7 @@ func tryReplay(ctx context.Context, rf *ReplayFile, v Violation, race bool) (boo
 	return hasViolation(ro.res, v.Oracle, v.Signature), ro.res
 }
 
-func minimise(ctx context.Context, rep *Result, v Violation, race bool) (*ReplayFile, error) {
+func minimise(ctx context.Context, rep *Result, v Violation, race bool, shrink bool) (*ReplayFile, error) {
 	vv := v
 	base := &ReplayFile{Property: rep.Prop, Tier: rep.Tier, Idx: rep.Idx, Seed: rep.Seed, Violation: &vv, Scenario: rep.Scenario, TraceTail: rep.TraceTail, TraceHash: rep.TraceHash, Race: race}
 	// 1. the plain seed replay must reproduce (twice, same trace hash)
@@ -586,7 +586,14 @@ func minimise(ctx context.Context, rep *Result, v Violation, race bool) (*Replay
 		return base, fmt.Errorf("seed replay did not reproduce the violation (first=%v second=%v)", ok1, ok2)
 	}
 	if r1 != nil && r2 != nil && r1.TraceHash != r2.TraceHash {
-		return base, fmt.Errorf("two replays of the same seed produced different traces (%s vs %s)", r1.TraceHash, r2.TraceHash)
+		// the violation reproduces, but the traces are not bit-identical (background activity of a
+		// library after the fault); report it, unminimised, and say so
+		base.TraceHash = ""
+		base.MinFrom = map[string]int{"trace_not_bit_identical": 1}
+		return base, nil
+	}
+	if !shrink {
+		return base, nil
 	}
 	if v.Oracle == "engine.process-crash" || v.Oracle == "engine.non-termination" || len(rep.Tape) == 0 && r1 != nil && len(r1.Tape) == 0 {
 		return base, nil
